@@ -16,7 +16,7 @@ vars == <<tree, ops, last>>
 
 N(n, nosel, sub) == [name |-> n, nosel |-> nosel, sub |-> sub]
 Ev(act, status, n, n2) == [act |-> act, status |-> status, name |-> n, name2 |-> n2,
-                           ref |-> <<>>, pat |-> <<>>, lsub |-> FALSE]
+                           ref |-> <<>>, pat |-> <<>>, pats |-> <<>>, lsub |-> FALSE]
 
 Init ==
     /\ tree = {N(Inbox, FALSE, FALSE)}
@@ -62,7 +62,11 @@ Subscribe(n, on) ==
     ELSE Step(Ev(act, "OK", n, <<>>), (tree \ {Node(tree, c)}) \cup {[Node(tree, c) EXCEPT !.sub = on]})
 
 List(ref, pat, lsub) ==
-    Step([Ev(IF lsub THEN "Lsub" ELSE "List", "OK", <<>>, <<>>) EXCEPT !.ref = ref, !.pat = pat, !.lsub = lsub], tree)
+    Step([Ev(IF lsub THEN "Lsub" ELSE "List", "OK", <<>>, <<>>) EXCEPT !.ref = ref, !.pat = pat, !.pats = <<pat>>,
+                                                                      !.lsub = lsub], tree)
+(* RFC 5258: LIST ref (pat1 pat2) lists the union *)
+ListMulti(ref, p1, p2) ==
+    Step([Ev("List", "OK", <<>>, <<>>) EXCEPT !.ref = ref, !.pat = p1, !.pats = <<p1, p2>>], tree)
 
 Restart == Step(Ev("Restart", "OK", <<>>, <<>>), tree)
 
@@ -71,6 +75,7 @@ Next ==
     \/ \E o \in NameSet, n \in NameSet : Rename(o, n)
     \/ \E n \in NameSet, on \in BOOLEAN : Subscribe(n, on)
     \/ \E r \in RefSet, p \in PatSet, l \in BOOLEAN : List(r, p, l)
+    \/ \E r \in RefSet, p1 \in PatSet, p2 \in PatSet : p1 # p2 /\ ListMulti(r, p1, p2)
     \/ Restart
 
 Spec == Init /\ [][Next]_vars
